@@ -6,6 +6,7 @@ import (
 	"path"
 	"sort"
 	"strings"
+	"unicode/utf8"
 )
 
 // Name universe of C02/C12/C13: SQL wildcard characters, dots, spaces, non-ASCII, prefix-related siblings, codec-looking
@@ -14,7 +15,7 @@ var longComp = strings.Repeat("L", 60) + "-" + strings.Repeat("n", 59)
 var nameUniverse = []string{"a", "ab", "a_", "a%", "a.b", "a b", "ä", "aä", ".h", "%", "_", "x.gz", "y.zst", "z.age", "w.pgp", longComp, "A", "AB", "Ä"} // incl. names that differ only in case
 
 // exotic components: characters that are special to tar, SQL, shells, globbing, Go path handling or terminals
-var exoticNames = []string{"...", "a\nb", "a\\b", "it's", "a*", "a?", "[a]", "a:b", "trail ", "dot.", "\U0001F600", "a\tb", "\"q\"", "-rf", "~", "a;b", "$x", "a=b", "#"}
+var exoticNames = []string{"...", "a\nb", "a\\b", "it's", "a*", "a?", "[a]", "a:b", "trail ", "dot.", "\U0001F600", "a\tb", "\"q\"", "-rf", "~", "a;b", "$x", "a=b", "#", "caf\xe9-latin1", strings.Repeat("z", 300)}
 
 func hasCodecSuffix(n string) bool {
 	for _, s := range []string{".gz", ".lz4", ".zst", ".br", ".bz2", ".age", ".pgp"} {
@@ -50,7 +51,15 @@ func NewGen(r *rand.Rand, o GenOpts) *Gen {
 		// a small per-history subset keeps collisions (reuse of names) frequent
 		uni := nameUniverse
 		if o.Exotic {
-			uni = append(append([]string{}, nameUniverse...), exoticNames...)
+			uni = append([]string{}, nameUniverse...)
+			for _, n := range exoticNames {
+				// with encryption or signatures the real header travels as JSON, which cannot carry bytes that are not UTF-8
+				// (open finding non-utf8-name-embedded-header, reported by its witness)
+				if !utf8.ValidString(n) && (o.Cfg.Enc != "" || o.Cfg.Sig != "") {
+					continue
+				}
+				uni = append(uni, n)
+			}
 		}
 		idx := r.Perm(len(uni))
 		n := 4 + r.Intn(3)
